@@ -1,16 +1,18 @@
 #!/bin/bash
-# seedstore.sh <src-dir> <name> <property> "<needs>" "<caught-by>" "<history>"
+# seedstore.sh <src-dir> <name> <property> "<needs>" "<caught-by>" "<history>" [check-to-run: property id(s), or none]
 set -eu
-src=$1; name=$2; prop=$3; needs=$4; caught=$5; hist=$6
+src=$1; name=$2; prop=$3; needs=$4; caught=$5; hist=$6; chk=${7:-}
 dst=/verif/seeded/$name; mkdir -p "$dst"
 cp "$src/patch.diff" "$src/demo_test.go" "$dst/"; [ -f "$src/notes.md" ] && cp "$src/notes.md" "$dst/notes.md"
-python3 - "$dst" "$prop" "$needs" "$caught" "$hist" <<'PY'
+python3 - "$dst" "$prop" "$needs" "$caught" "$hist" "$chk" <<'PY'
 import json,sys
-dst,prop,needs,caught,hist=sys.argv[1:6]
-json.dump({"property":prop,"author":"independent sub-agent given only the property text and a scratch worktree",
+dst,prop,needs,caught,hist,chk=sys.argv[1:7]
+d={"property":prop,"author":"independent sub-agent given only the property text and a scratch worktree",
  "needs_to_manifest":needs,
  "confirmed":"tools/seedcheck.sh: pinned suite passes with the change; demo_test.go fails with the change and passes without it (scratch copies under /tmp, removed afterwards)",
  "caught_by":caught,"history":hist,
- "how_to_rerun":"tools/seedcheck.sh /verif/seeded/%s %s" % (dst.split('/')[-1], prop)}, open(dst+"/meta.json","w"), indent=1)
+ "how_to_rerun":"tools/seedcheck.sh /verif/seeded/%s %s" % (dst.split('/')[-1], chk if chk and chk!="none" else prop)}
+if chk: d["check"]=chk
+json.dump(d, open(dst+"/meta.json","w"), indent=1)
 PY
 echo stored $dst
